@@ -13,7 +13,7 @@ import (
 func init() {
 	mon.Register(&mon.Prop{
 		ID: "C12", Level: "exploration",
-		Rule:        "complete enumeration of all strings over alphabets of size 2/3/4 up to the stated lengths (every rotation of every string is itself in the enumeration) plus structured long strings (powers, powers with one letter changed, Fibonacci and Thue-Morse words, runs, random) with a random rotation of each; non-trivial = length >= 2 and not all letters equal; distinct by hash of the string",
+		Rule:        "complete enumeration of all strings over alphabets of size 2/3/4 up to the stated lengths and over the byte alphabets {0x80,0xff} and {0xc3,0xa9,A} (strings that are not valid UTF-8) (every rotation of every string is itself in the enumeration) plus structured long strings (powers, powers with one letter changed, Fibonacci and Thue-Morse words, runs, random) with a random rotation of each; non-trivial = length >= 2 and not all letters equal; distinct by hash of the string",
 		Assumptions: []string{"oracle: brute force over all rotations for n<=64, independent two-pointer minimal-rotation scan above; both cross-checked on every short string"},
 		Shards:      tierShards(8, 16), WatchdogSec: tierSecs(600, 3600),
 		Run: runC12,
@@ -67,12 +67,23 @@ func thueMorse(n int) string {
 	return string(b)
 }
 
+func c12AlphaName(a string) string {
+	for i := 0; i < len(a); i++ {
+		if a[i] >= 0x80 || a[i] < 0x20 {
+			return fmt.Sprintf("x%x", a)
+		}
+	}
+	return a
+}
+
 func runC12(w *mon.W) {
 	type space struct {
 		alpha string
 		maxN  int
 	}
-	spaces := []space{{"aB", w.Pick(17, 21)}, {"ACG", w.Pick(11, 13)}, {"ACGT", w.Pick(9, 11)}}
+	// the last two alphabets are bytes that are not text: two bytes that never form valid UTF-8, and a lead
+	// byte, a continuation byte and a letter (some strings over them are valid UTF-8, most are not)
+	spaces := []space{{"aB", w.Pick(17, 21)}, {"ACG", w.Pick(11, 13)}, {"ACGT", w.Pick(9, 11)}, {"\x80\xff", w.Pick(13, 17)}, {"\xc3\xa9A", w.Pick(9, 11)}}
 	const blk = 8192
 	idx := 0
 	var parts []string
@@ -81,12 +92,12 @@ func runC12(w *mon.W) {
 		for n := 0; n <= sp.maxN; n++ {
 			total := ipow(len(sp.alpha), n)
 			for start := int64(0); start < total; start += blk {
-				id := fmt.Sprintf("enum-%s-n%d-b%d", sp.alpha, n, start/blk)
+				id := fmt.Sprintf("enum-%s-n%d-b%d", c12AlphaName(sp.alpha), n, start/blk)
 				idx++
 				if !w.Want(id, idx) {
 					continue
 				}
-				w.Begin(id, fmt.Sprintf("strings %d..%d of length %d over %s", start, start+blk-1, n, sp.alpha))
+				w.Begin(id, fmt.Sprintf("strings %d..%d of length %d over %q", start, start+blk-1, n, sp.alpha))
 				end := start + blk
 				if end > total {
 					end = total
@@ -112,7 +123,7 @@ func runC12(w *mon.W) {
 			continue
 		}
 		r := w.Rand(id)
-		alpha := []string{"AB", "ACGT", "ACGTRYSWKMBDHVN", "ab\x00\xff", "ACGTacgt"}[r.Intn(5)]
+		alpha := []string{"AB", "ACGT", "ACGTRYSWKMBDHVN", "ab\x00\xff", "ACGTacgt", "\x80\xff", "\xc3\xa9\xbf\xfe"}[r.Intn(7)]
 		var n int
 		switch r.Intn(4) {
 		case 0:
